@@ -169,14 +169,45 @@ def run_case(case):
     check('instances', U.Univariate(candidates=[kde5, U.StudentTUnivariate()]), ['StudentTUnivariate'],
           extra_ref={'GaussianKDE': kk})
     check('single', U.Univariate(candidates=[U.LogLaplace]), ['LogLaplace'])
+    # selection_sample_size >= number of rows: the search sees the data themselves (not a resample), whatever the global seed
+    for extra in (0, 50):
+        for gs in (1, 2, 3):
+            np.random.seed(gs)
+            check(f'selection_sample_size=n+{extra},global-seed={gs}', U.Univariate(selection_sample_size=len(x) + extra), ALL8)
+    # several differently configured prototypes of ONE family are different candidates (each is tried, the min-KS one wins)
+    for oname, order in (('wide-first', (3.0, None, 0.1)), ('narrow-first', (0.1, None, 3.0)), ('two-truncated', 'trunc')):
+        if order == 'trunc':
+            lo, hi = float(x.min()), float(x.max())
+            w_ = hi - lo if hi > lo else 1.0
+            protos = [U.TruncatedGaussian(lo - 50 * w_, hi + 50 * w_), U.TruncatedGaussian(lo - 1e-3 * w_, hi + 1e-3 * w_)]
+        else:
+            protos = [U.GaussianUnivariate() if b is None else U.GaussianKDE(bw_method=b) for b in order]
+        kss = [_ref_ks(x, p_) for p_ in protos]
+        fin = [k for k in kss if np.isfinite(k)]
+        wrp = U.Univariate(candidates=protos)
+        r.tr(len(protos) + 1)
+        r.ev()
+        try:
+            wrp.fit(x.copy())
+            mine = ks_stat(x, wrp.cdf)
+        except Exception as e:
+            if fin:
+                r.violation('C05:select:raises', f'Univariate[same-family prototypes, {oname}] on {dspec}: fit raised '
+                            f'{type(e).__name__}: {e}', case=case)
+            continue
+        if fin and not mine <= min(fin) + 1e-12:
+            r.violation('C05:select:not-min-ks:same-family-prototypes', f'Univariate[same-family prototypes, {oname}] on {dspec}: '
+                        f'selected KS={mine:.6f}, the prototypes fitted one by one have KS={[round(k, 6) for k in kss]}', case=case)
+    r.hit('same-family-prototypes')
     r['sample'] = {'dataset': list(dspec), 'reference_ks': {k: (v if np.isfinite(v) else None) for k, v in ref.items()}}
     return r
 
 
 # ------------------------------------------------------------------------------------------------
-GM_FORMS = ['default', 'class', 'name', 'instance', 'fitted-instance', 'instance-positional', 'wrapper-positional',
+GM_FORMS = ['default', 'class', 'name', 'instance', 'fitted-instance', 'instance-positional', 'instance-one-bound',
+            'wrapper-positional',
             'dict-all', 'dict-subset', 'dict-mixed', 'boom-class', 'boom-name', 'boom-instance', 'boom-dict',
-            'dict-reused-after-fallback', 'wrapper-selection-sample']
+            'dict-reused-after-fallback', 'wrapper-selection-sample', 'same-class-name-strings', 'same-class-name-strings-reversed']
 
 
 def _table(t):
@@ -236,6 +267,26 @@ def _gm(r, case):
         r.hit(f'gm:{form}')
         r['sample'] = {'form': form, 'table': t}
         return r
+    if form.startswith('same-class-name-strings'):
+        # two qualified names that end in the same class name are two different distributions, whichever is looked up first
+        lib, mine = 'copulas.univariate.gaussian.GaussianUnivariate', 'mc.boom.GaussianUnivariate'
+        conf = {c0: lib, c1: mine, c2: lib} if not form.endswith('reversed') else {c0: mine, c1: lib, c2: mine}
+        gmn = GaussianMultivariate(distribution=conf)
+        r.tr()
+        r.ev()
+        try:
+            gmn.fit(df.copy())
+            mods = [type(u).__module__ + '.' + type(u).__name__ for u in gmn.univariates]
+            want = [conf[c] for c in cols]
+            if mods != want:
+                r.violation(f'C05:gm:column-type:{form}', f'GaussianMultivariate(distribution={conf}) on table {t}: columns are '
+                            f'modelled by {mods}, configured {want}', case=case)
+        except Exception as e:
+            r.violation(f'C05:gm:fit-raises:{form}', f'GaussianMultivariate(distribution={conf}): fit raised '
+                        f'{type(e).__name__}: {e}', case=case)
+        r.hit(f'gm:{form}')
+        r['sample'] = {'form': form, 'table': t}
+        return r
     if form == 'wrapper-selection-sample':
         # a selecting wrapper that looks at a subsample, on a table whose row index is not 0..n-1
         tdf = df.copy()
@@ -264,6 +315,7 @@ def _gm(r, case):
         'instance': U.GaussianKDE(bw_method=0.5),
         'fitted-instance': fitted_proto,
         'instance-positional': U.TruncatedGaussian(0.0, 12.0),
+        'instance-one-bound': U.TruncatedGaussian(minimum=-2.5),
         'wrapper-positional': {c1: U.Univariate([U.GammaUnivariate, U.UniformUnivariate])},
         'dict-all': {c0: U.GaussianUnivariate, c1: U.GammaUnivariate, c2: U.UniformUnivariate},
         'dict-subset': {c1: U.BetaUnivariate},
@@ -358,6 +410,15 @@ def _gm(r, case):
                 if not (abs(lo - 0.0) <= 1e-6 and abs(hi - 12.0) <= 1e-6):
                     r.violation(f'C05:gm:prototype-options:{form}', f'{tag}: column {c!r} has support [{lo!r},{hi!r}], the '
                                 f'prototype was TruncatedGaussian(0.0, 12.0)', case=case)
+    elif form == 'instance-one-bound':
+        for c in cols:
+            if expect(c, {'TruncatedGaussian'}, 'instance prototype with only a lower bound'):
+                p = gm.univariates[cols.index(c)].to_dict()
+                lo, hi = p['loc'] + p['a'] * p['scale'], p['loc'] + p['b'] * p['scale']
+                xmax = float(df[c].max())
+                if not (abs(lo + 2.5) <= 1e-6 and abs(hi - xmax) <= 1e-5 * max(1, abs(xmax))):
+                    r.violation(f'C05:gm:prototype-options:{form}', f'{tag}: column {c!r} has support [{lo!r},{hi!r}], the '
+                                f'prototype was TruncatedGaussian(minimum=-2.5) and the data maximum is {xmax!r}', case=case)
     elif form == 'wrapper-positional':
         expect(c1, {'GammaUnivariate', 'UniformUnivariate'}, 'Univariate([Gamma, Uniform]) prototype')
         expect_default(c0)
